@@ -80,6 +80,16 @@ def steps(st: Any, sid: int, directions: list, hist: tuple, finish_order: tuple 
             yield ("finish", i)
 
 
+def _other_study(st: Any, config: str) -> None:
+    """Another study in the same storage holding the extreme values: per-study bookkeeping (best
+    trial caches, SQL filters) must not leak across studies. Skipped on the slowest configurations."""
+    if config in ("cached", "grpc(cached)"):
+        return
+    o = st.create_new_study([MIN], "c12-other")
+    st.create_new_trial(o, mk_template(("C", -INF, (-1.0,)), MIN))
+    st.create_new_trial(o, mk_template(("C", INF, (-1.0,)), MIN))
+
+
 def better(a: float, b: float, d: StudyDirection) -> bool:
     return a > b if d == MAX else a < b
 
@@ -87,6 +97,7 @@ def better(a: float, b: float, d: StudyDirection) -> bool:
 def check_single(env: Env, direction: StudyDirection, hist: tuple, finish_order: tuple | None, part: Part,
                  config: str) -> None:
     st = env.storage
+    _other_study(st, config)
     sid = st.create_new_study([direction], "c12")
     # ONE long-lived Study object (what a sampler, callback or dashboard holds) is asked after
     # EVERY write made by "another client": stale per-thread caches must not leak into the answer
@@ -182,6 +193,7 @@ def dominates(a: list, b: list, dirs: list) -> bool:
 
 def check_multi(env: Env, dirs: list, hist: tuple, finish_order: tuple | None, part: Part, config: str) -> None:
     st = env.storage
+    _other_study(st, config)
     sid = st.create_new_study(dirs, "c12")
     study = optuna.load_study(study_name="c12", storage=st)
     all_steps = len(hist) + (len(finish_order) if finish_order else 0)
